@@ -124,3 +124,5 @@ func goTest(c *Config, hist []string) string {
 }
 
 func jsonUnmarshal(b []byte, v any) error { return json.Unmarshal(b, v) }
+
+func jsonMarshal(v any) ([]byte, error) { return json.Marshal(v) }
